@@ -54,7 +54,7 @@ def check(case):
     if not o.ok or o.unspecified or o.unknowable:
         res.count("skipped:not-decodable")
         return res
-    if t.exc is not None and not real.is_documented(t.exc) and t.site and "unmarshal" in t.site:
+    if t.exc is not None and not t.decoder_raised:
         res.v("C02.a", "C02.a:%s@%s" % (type(t.exc).__name__, t.site), "%s (%s): re-encoder raised %r" % (label, mode, t.exc_sum))
         return res
     if t.exc_sum is not None:
